@@ -17,7 +17,8 @@ Firsts == {"connect_valid", "connect_unknown_object", "connect_bad_payload", "co
            \* timeout only: it is that timeout which ends the wait)
            "stalled_partial"}
 \* return:lock - the validator accepts but hands back something no serializer can encode: the handshake cannot be completed
-Validators == {"accept", "return:None", "return:False", "return:0", "return:list", "return:lock", "raise:ValueError", "raise:KeyError",
+\* return:huge - the validator accepts with an answer that does not fit into a message of the size the daemon may send
+Validators == {"accept", "return:None", "return:False", "return:0", "return:list", "return:lock", "return:huge", "raise:ValueError", "raise:KeyError",
                "raise:SecurityError", "raise:ConnectionClosedError", "raise:PyroError", "raise:TimeoutError",
                \* the validator refuses with an exception that has no message: there is no reason text to demand, but it is a refusal
                "raise:EmptyPermissionError", "raise:EmptySecurityError"}
@@ -25,7 +26,7 @@ NoMessage == {"raise:EmptyPermissionError", "raise:EmptySecurityError"}
 PipeItems == {"invoke_target", "invoke_daemon", "oneway_target", "batch_target", "getattr_target"}
 Returns(v) == v = "accept" \/ SubSeq(v, 1, 7) = "return:"
 DefinedTypes == {"type_invoke", "type_result", "type_ping", "type_connectok", "type_connectfail"}
-Accept(f, v) == f = "connect_valid" /\ Returns(v) /\ v # "return:lock"
+Accept(f, v) == f = "connect_valid" /\ Returns(v) /\ v \notin {"return:lock", "return:huge"}
 \* the validator is consulted for a decodable CONNECT payload only
 MustReason(f, v) == \/ f \in DefinedTypes \cup {"type_partial", "stalled_partial"}
                     \/ f = "connect_unknown_serializer"       \* (the refusal cannot be written in the peer's serializer; any other will do)
